@@ -205,7 +205,7 @@ PROPERTIES = {
     'C15': _P(['K-CB'], 'model_checking', KANI_LEVEL_TEXT + '. C15: ghost log of callback invocations; each operation contract states exactly how the log grows.', KANI_NOTE + '; with_on_evict_cb (RandomState) checked with RandomState::new stubbed', T_KANI),
     'C16': _P(['K-LIFE', 'K-SEG', 'K-WTLFU', 'K-TLFU-CTOR'], 'model_checking', KANI_LEVEL_TEXT + '. C16: clone contract (equal view, disjoint nodes, independence under mutation and drop) for RawLRU, SegmentedCache, WTinyLFUCache, TinyLFU.', KANI_NOTE, T_KANI),
     'C17': _P(['K-LIFE', 'K-CB', 'K-RAW', 'K-SEG', 'K-2Q', 'K-ARC', 'K-WTLFU'], 'model_checking', KANI_LEVEL_TEXT + '. C17: (i) every harness runs with a hasher whose use is a failure (the crate never hashes outside its index) and an index whose iteration order is nondeterministic; (ii) contracts are functions of the abstract view; (iii) two-run relational contract: same view, different addresses and index slot order, same results.', KANI_NOTE + '; independence from the particular BuildHasher inside std/hashbrown HashMap is an assumption on the dependency', T_KANI),
-    'C20': _P(['V-SLFU', 'K-SLFU'], 'model_checking', 'mixed, weakest link bounded: (a) deductive proof (Verus/Z3, unbounded in the number of tracked keys and in history length, exact i64 no-overflow preconditions) on the real bodies of increment_hashed_key, clear, room_left, fill_sample (loop invariant over the table iterator), increment, remove, update, hash_key against the vstd contract of std HashMap: invariant used == sum of recorded costs, whole-table postconditions, room_left(c) == max_cost - sum - c; (b) remove_hashed_key (closure capturing &mut), update_hashed_key (HashMap::get_mut), get_max_cost/update_max_cost (atomics) are contracted in Verus and discharged on the real bodies by ' + KANI_LEVEL_TEXT + '. C20 in K-SLFU: invariant used == sum of recorded costs over an arbitrary table; contracts of increment*/update*/remove*/clear/update_max_cost/room_left/fill_sample.', 'trusted: Verus/Z3 and the vstd specification of std::collections::HashMap<u64,i64,S> (conditional on builds_valid_hashers::<S>(), which is assumed of the hasher type); assume_specification: <&HashMap as IntoIterator>::into_iter has the vstd postcondition of HashMap::iter; KeyHasher is a function of its argument; AtomicI64 value modelled by an uninterpreted atomic_val written only by update_max_cost; Kani leaf: table <= N keys; |cost| < 2^40 (i64 overflow excluded by precondition)', T_VERUS + ' (remove_hashed_key, update_hashed_key, max-cost accessors: ' + T_KANI + ')'),
+    'C20': _P(['V-SLFU', 'K-SLFU'], 'model_checking', 'mixed, weakest link bounded: (a) deductive proof (Verus/Z3, unbounded in the number of tracked keys and in history length, exact i64 no-overflow preconditions) on the real bodies of increment_hashed_key, update_hashed_key, clear, room_left, fill_sample (loop invariant over the table iterator), increment, remove, update, hash_key against the vstd contract of std HashMap: invariant used == sum of recorded costs, whole-table postconditions, room_left(c) == max_cost - sum - c; (b) remove_hashed_key (Option::inspect with a pattern closure capturing &mut) and get_max_cost/update_max_cost (atomics) are contracted in Verus and discharged on the real bodies by ' + KANI_LEVEL_TEXT + '. C20 in K-SLFU: invariant used == sum of recorded costs over an arbitrary table; contracts of increment*/update*/remove*/clear/update_max_cost/room_left/fill_sample.', 'trusted: Verus/Z3 and the vstd specification of std::collections::HashMap<u64,i64,S> (conditional on builds_valid_hashers::<S>(), which is assumed of the hasher type); assume_specification (dependency contracts written here, vstd has none): HashMap::get_mut, and <&HashMap as IntoIterator>::into_iter with the vstd postcondition of HashMap::iter; KeyHasher is a function of its argument; AtomicI64 value modelled by an uninterpreted atomic_val written only by update_max_cost; Kani leaf: table <= N keys; |cost| < 2^40 (i64 overflow excluded by precondition)', T_VERUS + ' (remove_hashed_key, max-cost accessors: ' + T_KANI + ')'),
 }
 
 NOT_APPLICABLE = {
